@@ -356,7 +356,7 @@ def decEv : SExp → Option Pyham.Sax.Ev
   | _ => none
 
 def obsS (b : Pyham.Sax.Obs) : String :=
-  toString b.depth ++ "," ++ (if b.skipping then "1" else "0") ++ "," ++ (match b.inPG with | some k => toString k | none => "-") ++ "," ++
+  toString b.depth ++ "," ++ (if b.skipping then "1" else "0") ++ "," ++ (match b.inPG with | some k => toString k | none => "-") ++ "," ++ toString b.nframes ++ ":" ++
     "|".intercalate (b.frames.map fun f => toString f.1 ++ "/" ++ toString f.2.1 ++ "/" ++ toString f.2.2)
 
 def runQuery (T : STree) (nm : Naming) (inp : Input) (H? : Option Ham) (q : SExp) (o : OutBuf) : OutBuf :=
